@@ -338,7 +338,7 @@ def main(tier):
                     print("C05: %s at %s: %s: %s" % (key, pl, problems[0][0], problems[0][1]))
                     common.report_violation(PROP, p)
                     nviol += 1
-    total = 2400 if tier == "quick" else 30000
+    total = 6000 if tier == "quick" else 40000
     results = harness.run_workers("pbt.c05_reject", tier, total)
     for r in results:
         ev.merge(r["evidence"])
